@@ -14,17 +14,26 @@ TECHNIQUE = ("Hypothesis-generated revision DAGs on real branches; reference "
              "graph vs delta matching)")
 RULE = ("kind dag-log: history_spec DAGs of 2-14 revisions (merges of merges, "
         "ghost parents) x generated tip x every (direction, levels, mainline "
-        "range, limit, omit_merges) request drawn for the case. kind "
-        "file-log: DAGs whose file contents are the set of ancestors that "
+        "range, limit, omit_merges) request drawn for the case, the same range "
+        "as a graph difference (exclude_common_ancestry), limits on ranges, a "
+        "range between two merged revisions, an empty branch. kind "
+        "file-log: DAGs (some longer than one 9-revision batch) whose file "
+        "contents are the set of ancestors that "
         "touched the file (so merges really carry the merged side's change), "
-        "log of each file with both matching modes. Non-trivial: the tip's "
+        "log of each file with both matching modes, with limits, mainline "
+        "ranges and delta types, of several files and of the directory. "
+        "Non-trivial: the tip's "
         "ancestry contains a merge and the request has a range, a limit or a "
         "file filter. Distinct by case hash.")
 ASSUMPTIONS = [
     "merge depth and dotted revnos come from vcsgraph.merge_sort (trusted "
     "base); they are compared between breezy's code paths, not re-derived",
     "dotted (non-mainline) range endpoints are only checked with a validity "
-    "predicate (subset of the end revision's ancestry, no duplicates)",
+    "predicate (subset of the end revision's ancestry, no duplicates); a "
+    "range between two merged revisions additionally: contains both ends, "
+    "nothing below the start's left-hand parent, the same set in both "
+    "directions and generation modes, top level at depth 0 (the depths "
+    "inside such a range are presentation and are not compared)",
 ]
 LEVEL_TEXT = ("Sampled exploration against an independent graph model plus "
               "differentials between the redundant log code paths: every "
@@ -606,8 +615,8 @@ def kinds(tier):
     return [
         Kind("dag-log", run_dag,
              strategy=dag_cases(n_max=10 if tier == "quick" else 14),
-             examples={"quick": 240, "thorough": 8000}),
+             examples={"quick": 560, "thorough": 8000}),
         Kind("file-log", run_file,
              strategy=file_cases(n_max=9 if tier == "quick" else 12),
-             examples={"quick": 240, "thorough": 8000}),
+             examples={"quick": 560, "thorough": 8000}),
     ]
